@@ -97,7 +97,8 @@ def check_join(ctx, base_s, ref_s, part, sig_extra=()):
                  base_has_authority=B[1] is not None, base_path=B[2], branch=branch, _B=B, _R=R)
 
 
-BASE_SCHEMES = ["http", "https", "ftp", "file", "ws"]
+# the last four take an authority (urllib's uses_netloc) but do NOT support relative resolution (not in uses_relative)
+BASE_SCHEMES = ["http", "https", "ftp", "file", "ws", "git", "rsync", "telnet", "git+ssh"]
 BASE_AUTH = ["h", "u:p@h:81", "[::1]", None]
 BASE_PATHS = ["", "/", "/a", "/a/", "/a/b", "/a/b/", "/a%20b/c", "/a%2Fb/c%3Fd", "/a%25/%23b/", "/a/b/c/d;p"]
 BASE_QF = [("", ""), ("?x=1", ""), ("", "#bf"), ("?x=1", "#bf")]
